@@ -72,7 +72,16 @@ func (r *Reader) readBlock() error {
 	}
 	switch m := methodEncoding(r.header[hMethod]); m {
 	case encodedLZ4: // == encodedLZ4HC, as decompression is similar for both
-		n, err := lz4.UncompressBlock(r.raw[headerSize:], r.data)
+		dst := r.data
+		if len(dst) == 0 {
+			// The decoder must not get an empty destination: it can
+			// dereference it before checking bounds (nil pointer panic
+			// on a frame that claims zero bytes of data but holds more).
+			// With a spare byte such a frame fails the size check below
+			// or is rejected as too big for the destination.
+			dst = make([]byte, 1)
+		}
+		n, err := lz4.UncompressBlock(r.raw[headerSize:], dst)
 		if err != nil {
 			return errors.Wrap(err, "uncompress")
 		}
